@@ -622,6 +622,17 @@ func (ex *Exec) constFloat(v constant.Value) *Term {
 
 const maxSymbolicUnwind = 8
 
+// isHarnessFn: harness code (zzh, zzvrt, zzv, zz_*.go) may fork per element on purpose.
+func isHarnessFn(fn *ssa.Function) bool {
+	if fn.Pkg != nil && strings.Contains(fn.Pkg.Pkg.Path(), "/zz") {
+		return true
+	}
+	if p := fn.Prog.Fset.Position(fn.Pos()); strings.Contains(p.Filename, "/zz_") {
+		return true
+	}
+	return false
+}
+
 type frame struct {
 	symIf  map[*ssa.If]int
 	defers []func()
@@ -716,7 +727,7 @@ func (ex *Exec) call(fn *ssa.Function, args []Value, fv []Value, site ssa.Instru
 						fr.symIf = map[*ssa.If]int{}
 					}
 					fr.symIf[i]++
-					if fr.symIf[i] > maxSymbolicUnwind {
+					if fr.symIf[i] > maxSymbolicUnwind && !isHarnessFn(fn) {
 						ex.res.Undischarged = append(ex.res.Undischarged, "unwinding bound: a symbolic branch was decided more than "+strconv.Itoa(maxSymbolicUnwind)+" times in one activation of "+fn.String()+" @ "+ex.pos2s(insPos(i, blk)))
 						panic(abortPath{"unwinding bound hit"})
 					}
